@@ -23,7 +23,7 @@ for p in props:
     for node in tree.body:
         if isinstance(node, ast.Assign) and len(node.targets) == 1 and isinstance(node.targets[0], ast.Name):
             if node.targets[0].id in ('LEVEL', 'LEVEL_TEXT', 'LEVEL_NOTE', 'TECHNIQUE', 'DESIGN_REF'):
-                ns[node.targets[0].id] = ast.literal_eval(node.value)
+                ns[node.targets[0].id] = eval(compile(ast.Expression(node.value), path, 'eval'), {'__builtins__': {}})     # string constants, possibly joined with +
     checks.append({
         'property_id': pid,
         'quick_cmd': './check %s --tier quick' % pid,
